@@ -23,6 +23,9 @@ pub struct Case {
     /// after which deliveries the GC twin is force-collected
     pub twin_gc_after: Vec<u16>,
     pub twin_utf16: bool,
+    /// both twins clean up redundant formatting (the library's default)
+    #[serde(default)]
+    pub twin_cleanup: bool,
 }
 
 pub struct Twins;
@@ -61,8 +64,9 @@ impl Prop for Twins {
             prop::collection::vec((any::<u16>(), any::<bool>()), 0..4),
             prop::collection::vec(any::<u16>(), 0..3),
             any::<bool>(),
+            any::<bool>(),
         )
-            .prop_map(|(history, sched, gc_after, twin_gc_after, twin_utf16)| Case { history, sched, gc_after, twin_gc_after, twin_utf16 })
+            .prop_map(|(history, sched, gc_after, twin_gc_after, twin_utf16, twin_cleanup)| Case { history, sched, gc_after, twin_gc_after, twin_utf16, twin_cleanup })
             .boxed()
     }
 
@@ -95,8 +99,11 @@ impl Prop for Twins {
             return Ok(());
         }
         // twins
-        let on = Replica::new(Cfg { client: 7001, utf16: case.twin_utf16, skip_gc: false, cleanup: false });
-        let off = Replica::new(Cfg { client: 7002, utf16: case.twin_utf16, skip_gc: true, cleanup: false });
+        let on = Replica::new(Cfg { client: 7001, utf16: case.twin_utf16, skip_gc: false, cleanup: case.twin_cleanup });
+        let off = Replica::new(Cfg { client: 7002, utf16: case.twin_utf16, skip_gc: true, cleanup: case.twin_cleanup });
+        if case.twin_cleanup {
+            st.hit("twins_with_format_cleanup");
+        }
         let all: Vec<usize> = (0..n_up).collect();
         let p = plan(&case.sched, &all);
         for (di, d) in p.iter().enumerate() {
@@ -139,7 +146,9 @@ impl Prop for Twins {
                 }
             }
         }
-        let twin_dump = on.dump();
+        // (twins that clean up formatting are not passive: they may differ from the authors, who
+        // do not, in formatting — DESIGN section 7 — so they are compared with each other only)
+        let twin_dump = if case.twin_cleanup { w.reps[0].dump() } else { on.dump() };
         for r in 0..n {
             let d = w.reps[r].dump();
             if d != twin_dump {
@@ -169,8 +178,9 @@ impl Prop for Twins {
                 }
                 ensure!(!f.has_missing(), "c15/rebuild/pending", "document rebuilt from a collected replica's full state reports missing updates");
                 let d = f.dump();
-                if d != twin_dump {
-                    fail!("c15/rebuild/content", "document rebuilt from a collected replica's full state (v2={}) differs: {}", v2, first_diff(&d, &twin_dump).unwrap_or_default());
+                let own = src.dump();
+                if d != own {
+                    fail!("c15/rebuild/content", "document rebuilt from a collected replica's full state (v2={}) differs: {}", v2, first_diff(&d, &own).unwrap_or_default());
                 }
             }
         }
